@@ -82,53 +82,52 @@ class TCPTransport(KNXIPTransport):
         self._buffer = b""
 
     def data_received_callback(self, raw: bytes) -> None:
-        """Parse and process KNXIP frame. Callback for having received data over TCP."""
+        """Parse and process KNXIP frames. Callback for having received data over TCP."""
         if self._buffer:
             raw = self._buffer + raw
             self._buffer = b""
-        if not raw:
-            return
-        try:
-            knxipframe, next_frame_part = KNXIPFrame.from_knx(raw)
-        except IncompleteKNXIPFrame:
-            self._buffer = raw
-            raw_socket_logger.debug(
-                "Incomplete KNX/IP frame. Waiting for rest: %s", raw.hex()
-            )
-            return
-        except CouldNotParseKNXIP as couldnotparseknxip:
-            knx_logger.debug(
-                "Unsupported KNXIPFrame from %s: %s in %s",
-                self.remote_hpai,
-                couldnotparseknxip.description,
-                raw.hex(),
-            )
-            # KNXIPHeader.from_knx sets total_length before raising if it is readable
-            header = KNXIPHeader()
+        # a chunk may carry any number of frames (and a partial one at its end)
+        while raw:
             try:
-                header.from_knx(raw)
-            except CouldNotParseKNXIP:
-                pass
-            if header.total_length < KNXIPHeader.HEADERLENGTH:
-                # frame length unknown - resynchronise on the next octet
-                next_frame_part = raw[1:]
-            elif len(raw) < header.total_length:
-                # wait for the rest of the malformed frame to skip it
+                knxipframe, raw_next = KNXIPFrame.from_knx(raw)
+            except IncompleteKNXIPFrame:
                 self._buffer = raw
+                raw_socket_logger.debug(
+                    "Incomplete KNX/IP frame. Waiting for rest: %s", raw.hex()
+                )
                 return
-            else:
-                # skip the malformed frame
-                next_frame_part = raw[header.total_length :]
-        else:
+            except CouldNotParseKNXIP as couldnotparseknxip:
+                knx_logger.debug(
+                    "Unsupported KNXIPFrame from %s: %s in %s",
+                    self.remote_hpai,
+                    couldnotparseknxip.description,
+                    raw.hex(),
+                )
+                # KNXIPHeader.from_knx sets total_length before raising if it is readable
+                header = KNXIPHeader()
+                try:
+                    header.from_knx(raw)
+                except CouldNotParseKNXIP:
+                    pass
+                if header.total_length < KNXIPHeader.HEADERLENGTH:
+                    # frame length unknown - resynchronise on the next octet
+                    raw = raw[1:]
+                elif len(raw) < header.total_length:
+                    # wait for the rest of the malformed frame to skip it
+                    self._buffer = raw
+                    return
+                else:
+                    # skip the malformed frame; parse data after it
+                    raw = raw[header.total_length :]
+                continue
             knx_logger.debug(
                 "Received from %s: %s",
                 self.remote_hpai,
                 knxipframe,
             )
             self.handle_knxipframe(knxipframe, self.remote_hpai)
-        # parse data after current KNX/IP frame
-        if next_frame_part:
-            self.data_received_callback(next_frame_part)
+            # parse data after current KNX/IP frame
+            raw = raw_next
 
     async def connect(self) -> None:
         """Connect TCP socket."""
